@@ -191,3 +191,36 @@ func VH_C06_cancel() {
 		}
 	}
 }
+
+// the same batch node run twice (a batch node in a loop of a flow does that): whatever the first run
+// was like — larger, smaller, with failures — the second run's post sees exactly its own n items and
+// n results, slot i from item i of THIS run
+func VH_C06_rerun() {
+	vUnwind(24)
+	m := &bMon{}
+	bConfig(m)
+	vAssume(m.n >= 1)
+	m.stop = vNondet[bool]("stop")
+	b := bNode(m, c06Exec(m))
+	_, err1 := Run(m.ctx, b, NewSharedStore())
+	n1 := m.n
+	// second run: fresh observations, its own size (the prep function reads m.n when it is called)
+	n2 := vNondet[int]("n2")
+	vAssume(0 <= n2 && n2 <= vParam("n", 3))
+	n2 = vConcrete(n2)
+	*m = bMon{n: n2, c: m.c, stop: m.stop, ctx: m.ctx, firstFail: -1, cancelAt: -1, checkSettled: true}
+	if !m.stop {
+		m.minStarts = 1
+	}
+	_, err := Run(m.ctx, b, NewSharedStore())
+	if err != nil || err1 != nil {
+		return
+	}
+	c06CheckPost(m)
+	switch {
+	case n2 < n1:
+		vCover("second-batch-smaller")
+	case n2 > n1:
+		vCover("second-batch-larger")
+	}
+}
